@@ -109,10 +109,10 @@ package types
 //@   props C18
 //@   let ok = bignumok(self.Difficulty) && bignumok(self.BaseFee)
 //@   trusts fn:      pack(result) == ethOf(pack(self))
-//@   ensures fields: ok ==> str(result.ParentHash) == hash32(str(self.ParentHash)) && str(result.UncleHash) == hash32(str(self.UncleHash)) && result.GasLimit == self.GasLimit &&
+//@   ensures fields: ok ==> str(result.ParentHash) == hash32(str(self.ParentHash)) && str(result.UncleHash) == hash32(str(self.UncleHash)) && str(result.Root) == hash32(str(self.Root)) && result.GasLimit == self.GasLimit &&
 //@                          result.GasUsed == self.GasUsed && result.Time == self.Time && result.Difficulty == bigparse(self.Difficulty) && result.BaseFee == bigparse(self.BaseFee) &&
 //@                          result.Number == bigof(self.Height.RevisionHeight) && result.Difficulty != nil && result.BaseFee != nil
-//@   ensures zero:   !ok ==> str(result.ParentHash) == zeroarr(32) && str(result.UncleHash) == zeroarr(32) && result.GasLimit == 0 && result.GasUsed == 0 && result.Time == 0 &&
+//@   ensures zero:   !ok ==> str(result.ParentHash) == zeroarr(32) && str(result.UncleHash) == zeroarr(32) && str(result.Root) == zeroarr(32) && result.GasLimit == 0 && result.GasUsed == 0 && result.Time == 0 &&
 //@                          result.Difficulty == nil && result.BaseFee == nil && result.Number == nil
 //@
 //@ // gas limit: within parent/1024 of the parent's (exclusive) and at least 5000 (parent limit below 2^63)
@@ -174,3 +174,108 @@ package types
 //@   requires stored.bound: forall k: key :: present(tibc[k]) && is_ethIdx(k) && isa(anydec(val(tibc[k])), Header) ==> as(anydec(val(tibc[k])), Header).GasLimit <=u 0x7fffffffffffffff
 //@   ensures sound:    err == nil ==> !known && stored && timeOk && eip && diffOk && powOk(hp)
 //@   ensures complete: !known && stored && timeOk && eip && diffOk && powOk(hp) ==> err == nil
+//@
+//@ // stand-alone checks: extra data at most 32 bytes, gas limit below 2^63, gas used within the limit, and above the
+//@ // genesis block a parsable, non-zero difficulty (an unparsable one panics, which fails the transaction as well)
+//@ func (Header).ValidateBasic() (err)
+//@   props C18
+//@   let hok = bignumok(self.Difficulty) && bignumok(self.BaseFee)
+//@   ensures def: err == nil <==> len(self.Extra) <=s 32 && self.GasLimit <=u 0x7fffffffffffffff && self.GasUsed <=u self.GasLimit &&
+//@                   (self.Height.RevisionHeight >u 0 ==> hok && bigu64(bigparse(self.Difficulty)) != 0)
+//@
+//@ // checkValidity: the stand-alone checks and verifyHeader
+//@ func checkValidity(ctx, cdc, store, clientState, consState, header) (err)
+//@   props C18
+//@   let c      = clientOf(store)
+//@   let hp     = pack(header)
+//@   let number = header.Height.RevisionHeight
+//@   let hok    = bignumok(header.Difficulty) && bignumok(header.BaseFee)
+//@   let basic  = len(header.Extra) <=s 32 && header.GasLimit <=u 0x7fffffffffffffff && header.GasUsed <=u header.GasLimit && (number >u 0 ==> hok && bigu64(bigparse(header.Difficulty)) != 0)
+//@   let phash  = ite(hok, hash32(str(header.ParentHash)), zeroarr(32))
+//@   let known  = present(tibc[ethIdx(c, ethHash(hp), number)])
+//@   let po     = tibc[ethIdx(c, phash, number - 1)]
+//@   let pobj   = anydec(val(po))
+//@   let P      = as(pobj, Header)
+//@   let pok    = bignumok(P.Difficulty) && bignumok(P.BaseFee)
+//@   let stored = present(po) && anyok(val(po)) && isa(pobj, Header) && ethHash(pack(P)) == phash
+//@   let timeOk = header.Time <=u unix(now() + dur(15000000000)) && header.Time >u P.Time
+//@   let pgl    = ite(pok, P.GasLimit, 0)
+//@   let hgl    = ite(hok, header.GasLimit, 0)
+//@   let gd     = ite(pgl >=u hgl, pgl - hgl, hgl - pgl)
+//@   let eip    = gd <u pgl / 1024 && hgl >=u 5000 && hok && bigcmp(bigparse(header.BaseFee), calcBaseFee(pack(P))) == 0
+//@   let diffOk = bigcmp(calcdiff(header.Time, pack(P), bigsub(bigof(9700000), bigof(1))), bigparse(header.Difficulty)) == 0
+//@   requires stored.bound: forall k: key :: present(tibc[k]) && is_ethIdx(k) && isa(anydec(val(tibc[k])), Header) ==> as(anydec(val(tibc[k])), Header).GasLimit <=u 0x7fffffffffffffff
+//@   ensures sound:    err == nil ==> basic && !known && stored && timeOk && eip && diffOk && powOk(hp)
+//@   ensures complete: basic && !known && stored && timeOk && eip && diffOk && powOk(hp) ==> err == nil
+//@
+//@ // update: the consensus state of the header; the header is indexed under (hash, number) and its state root points to
+//@ // that index entry
+//@ func update(ctx, cdc, store, clientState, header) (newCS, cs, err)
+//@   props C18
+//@   modifies tibc
+//@   let c      = clientOf(store)
+//@   let hp     = pack(header)
+//@   let number = header.Height.RevisionHeight
+//@   let hok    = bignumok(header.Difficulty) && bignumok(header.BaseFee)
+//@   let root   = ite(hok, hash32(str(header.Root)), zeroarr(32))
+//@   alias newCS = clientState
+//@   ensures cons:  err == nil ==> cs.Timestamp == header.Time && cs.Number == header.Height && str(cs.Root) == str(header.Root)
+//@   ensures index: err == nil ==> tibc == old(tibc)[ethIdx(c, ethHash(hp), number) := anyenc(hp)][ethRoot(c, root, number) := subrepr(ethIdx, ethHash(hp), number)]
+//@   ensures fail:  err != nil ==> tibc == old(tibc)
+//@
+//@ // pruning of one expired consensus state together with its header-index and root-index entries: only keys of this
+//@ // client are touched, and only by deletion (assumed: the raw index key read back from the root index is not tracked)
+//@ func deleteConsensusStateAndIndexHeader(cdc, clientStore, height) (err)
+//@   props C18
+//@   modifies tibc
+//@   trusts frame:  forall k: key :: !inClient(k, clientOf(clientStore)) ==> tibc[k] == old(tibc)[k]
+//@   trusts only.deletes: forall k: key :: tibc[k] == old(tibc)[k] || !present(tibc[k])
+//@   trusts fail:   err != nil ==> tibc == old(tibc)
+//@
+//@ // RestrictChain (fork switch): rewrites the consensus states of the heights on the new branch; only consensus-state
+//@ // keys of this client are written. What it writes is NOT under contract here: the chain-consistency half of C18 is
+//@ // decided by the bounded check C18.forks (see props/C18.prop), which is where finding F-18 shows.
+//@ func (ClientState).RestrictChain(cdc, store, new) (err)
+//@   props C18
+//@   modifies tibc
+//@   trusts frame: forall k: key :: !(is_consState(k) && consState_0(k) == clientOf(store)) ==> tibc[k] == old(tibc)[k]
+//@
+//@ // CheckHeaderAndUpdateState: accepted only if the consensus state of the latest header is readable and checkValidity
+//@ // accepts (the conditions of the statement); then the header is indexed, becomes the client's latest header and its
+//@ // consensus state is returned. Pruning and a fork switch may fail the update for reasons outside the statement's
+//@ // conditions (F-18), so only the "only if" direction is claimed at this level; the "if" direction is verifyHeader's.
+//@ func (ClientState).CheckHeaderAndUpdateState(ctx, cdc, store, header) (newCS, newCons, err)
+//@   props C18
+//@   modifies tibc
+//@   let c      = clientOf(store)
+//@   let h      = as(header, Header)
+//@   let hp     = pack(h)
+//@   let number = h.Height.RevisionHeight
+//@   let latest = self.Header.Height
+//@   let co     = tibc[consState(c, latest.RevisionNumber, latest.RevisionHeight)]
+//@   let consOk = present(co) && clienttypes.decodesCons(val(co)) && isa(clienttypes.consDecode(val(co)), ConsensusState)
+//@   let hok    = bignumok(h.Difficulty) && bignumok(h.BaseFee)
+//@   let basic  = len(h.Extra) <=s 32 && h.GasLimit <=u 0x7fffffffffffffff && h.GasUsed <=u h.GasLimit && (number >u 0 ==> hok && bigu64(bigparse(h.Difficulty)) != 0)
+//@   let phash  = ite(hok, hash32(str(h.ParentHash)), zeroarr(32))
+//@   let known  = present(tibc[ethIdx(c, ethHash(hp), number)])
+//@   let po     = tibc[ethIdx(c, phash, number - 1)]
+//@   let pobj   = anydec(val(po))
+//@   let P      = as(pobj, Header)
+//@   let pok    = bignumok(P.Difficulty) && bignumok(P.BaseFee)
+//@   let stored = present(po) && anyok(val(po)) && isa(pobj, Header) && ethHash(pack(P)) == phash
+//@   let timeOk = h.Time <=u unix(now() + dur(15000000000)) && h.Time >u P.Time
+//@   let pgl    = ite(pok, P.GasLimit, 0)
+//@   let hgl    = ite(hok, h.GasLimit, 0)
+//@   let gd     = ite(pgl >=u hgl, pgl - hgl, hgl - pgl)
+//@   let eip    = gd <u pgl / 1024 && hgl >=u 5000 && hok && bigcmp(bigparse(h.BaseFee), calcBaseFee(pack(P))) == 0
+//@   let diffOk = bigcmp(calcdiff(h.Time, pack(P), bigsub(bigof(9700000), bigof(1))), bigparse(h.Difficulty)) == 0
+//@   requires header.type:  isa(header, Header)
+//@   requires stored.bound: forall k: key :: present(tibc[k]) && is_ethIdx(k) && isa(anydec(val(tibc[k])), Header) ==> as(anydec(val(tibc[k])), Header).GasLimit <=u 0x7fffffffffffffff
+//@   ensures sound:   err == nil ==> consOk && basic && !known && stored && timeOk && eip && diffOk && powOk(hp)
+//@   ensures latest:  err == nil ==> pack(newCS.Header) == hp
+//@   ensures cons:    err == nil ==> newCons.Timestamp == h.Time && newCons.Number == h.Height && str(newCons.Root) == str(h.Root)
+//@   ensures params:  err == nil ==> newCS.ChainId == self.ChainId && newCS.TrustingPeriod == self.TrustingPeriod && newCS.TimeDelay == self.TimeDelay && newCS.BlockDelay == self.BlockDelay && str(newCS.ContractAddress) == str(self.ContractAddress)
+//@   ensures indexed: err == nil ==> tibc[ethIdx(c, ethHash(hp), number)] == some(anyenc(hp))
+//@   ensures frame:   forall k: key :: !inClient(k, c) ==> tibc[k] == old(tibc)[k]
+//@   ensures nonnil:  err == nil ==> newCS != nil && newCons != nil
+//@   cover accepted:  err == nil
